@@ -39,8 +39,9 @@ void Signal::set()
 #else
   VERIFY(pthread_mutex_lock((pthread_mutex_t*)mdata) == 0);
   signaled = true;
-  VERIFY(pthread_mutex_unlock((pthread_mutex_t*)mdata) == 0);
+  // wake the waiters while the mutex is still held: a released waiter may destroy this object as soon as it owns the mutex
   VERIFY(pthread_cond_broadcast((pthread_cond_t*)cdata) == 0);
+  VERIFY(pthread_mutex_unlock((pthread_mutex_t*)mdata) == 0);
 #endif
 }
 
